@@ -78,7 +78,8 @@ SeqProd(ss) == IF ss = <<>> THEN {<<>>}
 \* (a step of 0 is only meaningful for a single element: the generated wrappers write one state row with
 \* ApplySlice(loc, step = <<0, 1>>, row); offered when StepVals contains 0)
 \* Broadcast = TRUE also offers step 0 over an extent > 1: every index of that dimension addresses element loc
-DimSel(ext) == {<<l, n, s>> \in (0..(ext - 1)) \X (1..ext) \X StepVals : l + (n - 1) * s <= ext - 1 /\ (s = 0 => (n = 1 \/ Broadcast))}
+\* Negative steps (StepVals may contain them) walk a dimension backwards: element i is loc + i*step all the same
+DimSel(ext) == {<<l, n, s>> \in (0..(ext - 1)) \X (1..ext) \X StepVals : l + (n - 1) * s <= ext - 1 /\ l + (n - 1) * s >= 0 /\ (s = 0 => (n = 1 \/ Broadcast))}
 
 Col(sel, j) == [d \in 1..Len(sel) |-> sel[d][j]]
 
@@ -235,6 +236,7 @@ WApply ==
        \E k \in 1..Len(v.offs) : \E n \in 1..v.shape[dim] : \E s \in StepVals :
           LET loc == Unrank(k - 1, v.shape) IN
           /\ loc[dim] + (n - 1) * s <= v.shape[dim] - 1
+          /\ loc[dim] + (n - 1) * s >= 0
           /\ (s = 0 => n = 1)
           /\ LET vals == FreshVals(n)
                  ws == [j \in 1..n |->
